@@ -263,6 +263,45 @@ func (s *tmplState) walk(dot tval, n parse.Node) {
 		s.emit(s.printValue(v))
 	case *parse.RangeNode:
 		v := s.evalPipe(dot, x.Pipe)
+		if mv, isMap := v.v.(MapV); isMap {
+			// text/template visits a map in sorted key order (string keys here)
+			mt, _ := v.t.Underlying().(*types.Map)
+			if mt == nil || mv.M == nil || len(mv.M.Keys) == 0 {
+				s.walk(dot, x.ElseList)
+				return
+			}
+			idx := make([]int, len(mv.M.Keys))
+			for i := range idx {
+				idx[i] = i
+			}
+			for i := 1; i < len(idx); i++ {
+				for j := i; j > 0; j-- {
+					ka, okA := mv.M.Keys[idx[j]].(StrV)
+					kb, okB := mv.M.Keys[idx[j-1]].(StrV)
+					if !okA || !okB {
+						e.unsupported("template: range over a map with non-string keys")
+					}
+					if !e.decide(e.strLess(ka, kb)) {
+						break
+					}
+					idx[j], idx[j-1] = idx[j-1], idx[j]
+				}
+			}
+			for _, k := range idx {
+				el := tval{mv.M.Vals[k], mt.Elem()}
+				s.vars = append(s.vars, map[string]tval{})
+				switch len(x.Pipe.Decl) {
+				case 1:
+					s.vars[len(s.vars)-1][x.Pipe.Decl[0].Ident[0]] = el
+				case 2:
+					s.vars[len(s.vars)-1][x.Pipe.Decl[0].Ident[0]] = tval{mv.M.Keys[k], mt.Key()}
+					s.vars[len(s.vars)-1][x.Pipe.Decl[1].Ident[0]] = el
+				}
+				s.walk(el, x.List)
+				s.vars = s.vars[:len(s.vars)-1]
+			}
+			return
+		}
 		sl, ok := v.v.(SliceV)
 		if !ok {
 			e.unsupported("template: range over %T", v.v)
